@@ -138,6 +138,7 @@ class RI:
         self.open_tail = False
         self.maybe_complete = False        # input ran out inside a statement that could already be complete
         self.foreach_stack = []
+        self.in_byte = False
         self.flags = set()
 
     # -- plumbing ----------------------------------------------------------------------------------
@@ -150,12 +151,30 @@ class RI:
         c = self.inp[self.pos]
         self.pos += 1
         self.journal = []
+        self.in_byte = False
         if c != END:
             self.last = c
         return c
 
+    def take(self, c, on_char=None):
+        """consume byte c: per-character effects first (they can still refuse the byte), then the byte counts as read"""
+        if c != END:
+            if on_char is not None:
+                on_char(c, True)               # capacity check: may raise OutOfSpace, nothing has happened yet
+            saved_last = self.last
+            self.last = c
+            self.in_byte = True                # exact effects emitted now belong to this byte
+            try:
+                if on_char is not None:
+                    on_char(c, False)
+                self.after_byte(c)
+            except OutOfSpace:
+                self.in_byte = False
+                raise
+        self.consume()
+
     def emit(self, kind, data, exact=False, droppable=True, before=None):
-        e = Effect(kind, data, self.pos, exact, self.store.snapshot(), droppable and not exact)
+        e = Effect(kind, data, self.pos + (1 if (exact and getattr(self, "in_byte", False)) else 0), exact, self.store.snapshot(), droppable and not exact)
         self.effects.append(e)
         if not exact:
             self.journal.append((len(self.effects) - 1, before))
@@ -201,12 +220,7 @@ class RI:
             self.maybe_complete = False
             d = rx.deriv(q, c)
             if d != rx.EMPTY:
-                if on_char is not None and c != END:
-                    on_char(c, True)      # may raise OutOfSpace before the byte is consumed
-                self.consume()
-                if on_char is not None and c != END:
-                    on_char(c, False)
-                self.after_byte(c)
+                self.take(c, on_char)
                 q = d
                 continue
             if rx.nullable(q):
@@ -218,16 +232,10 @@ class RI:
                     raise Exhausted()
                 d = rx.deriv(start, c)
                 if d != rx.EMPTY:
-                    if on_char is not None:
-                        on_char(c, True)
-                    self.consume()
-                    if on_char is not None:
-                        on_char(c, False)
-                    self.after_byte(c)
+                    self.take(c, on_char)
                     q = d
                 else:
-                    self.consume()
-                    self.after_byte(c)
+                    self.take(c, None)
                     q = start
                 continue
             self.error(NoMatch())
@@ -293,7 +301,7 @@ class RI:
             o = st.by[s.var]
             t, v = self.ev(s.e)
             if st.v[s.var][1] >= st.cap(o):
-                self.fail_slack = True
+                self.fail_slack = not self.in_byte
                 self.error(OutOfSpace())
             before = st.save()
             self.buf_append(s.var, v)
@@ -400,11 +408,15 @@ class RI:
     def do_action_exact(self, a):
         """a foreach do-action: per-character timing"""
         n0 = len(self.effects)
-        self.stmt(a, [])
-        for e in self.effects[n0:]:
-            e.exact = True
-            e.droppable = False
-        self.journal = [j for j in self.journal if j[0] < n0]
+        try:
+            self.stmt(a, [])
+        finally:
+            for e in self.effects[n0:]:
+                if not e.exact:
+                    e.exact = True
+                    e.droppable = False
+                    e.pos = self.pos + (1 if self.in_byte else 0)
+            self.journal = [j for j in self.journal if j[0] < n0]
 
     def menv(self):
         return getattr(self, "_menv", None)
@@ -438,8 +450,7 @@ class RI:
             if nxt:
                 if done_now and not s.greedy and any(x[3] != d[3] for x in nxt for d in done_now):
                     self.ambiguities.append(("case-finish-or-continue", self.pos, c))
-                self.consume()
-                self.after_byte(c)
+                self.take(c, None)
                 consumed_any = True
                 alive = nxt
                 continue
